@@ -12,10 +12,16 @@ use std::io::BufRead;
 use std::path::{Path, PathBuf};
 use std::rc::Rc;
 
-const BS: usize = 512;
+/// bytes per block of the vectors: 512, or - QV_UNIT - a multiple of it, which
+/// turns the same request sequences into large requests (several MiB)
+fn unit() -> usize {
+    std::env::var("QV_UNIT").ok().and_then(|v| v.parse().ok()).unwrap_or(512)
+}
 
 /// run one vector on a backend; returns the list of disagreements
 async fn run_vec<T: Qcow2IoOps>(io: &T, v: &Value) -> Vec<String> {
+    #[allow(non_snake_case)]
+    let BS = unit();
     let mut bad = Vec::new();
     for (k, op) in v["ops"].as_array().unwrap().iter().enumerate() {
         let off = op["off"].as_u64().unwrap() * BS as u64;
@@ -74,6 +80,8 @@ async fn run_vec<T: Qcow2IoOps>(io: &T, v: &Value) -> Vec<String> {
 fn check_final(bytes: &[u8], v: &Value) -> Vec<String> {
     let mut bad = Vec::new();
     let fin = v["final"].as_array().unwrap();
+    #[allow(non_snake_case)]
+    let BS = unit();
     if bytes.len() != fin.len() * BS {
         bad.push(format!("final length {} != {}", bytes.len(), fin.len() * BS));
         return bad;
@@ -111,7 +119,7 @@ pub fn run(inp: &str, dir: &str) -> i32 {
     };
     // SimFile (the reference implementation the other checks run against)
     for v in vecs.iter() {
-        let world = Rc::new(RefCell::new(World::new(BS)));
+        let world = Rc::new(RefCell::new(World::new(512)));
         world.borrow_mut().add_file(Vec::new(), false);
         let io = SimFile::new(&world, 0);
         let mut bad = block_on(&world, 0, run_vec(&io, v)).unwrap_or_else(|e| vec![format!("executor: {e}")]);
